@@ -78,6 +78,7 @@ def main(argv):
     known = load_known()
     n_ob = n_ok = 0
     viol = []
+    struct_viol = []
     undec = []
     knownhits = []
     samples = []
@@ -101,6 +102,12 @@ def main(argv):
             if g not in u.get('proved_callees', r['replaced']):
                 assumptions.add('assumed contract (not proved by any unit): ' + g)
         if r['status'] == 'undecided':
+            if r['reason'].startswith('weave:'):
+                # structural change: contracts cannot attach; a violation is reported only with a concrete failing input
+                spath, sfound = RP.structural(u, r['reason'], prop, seed)
+                if sfound:
+                    struct_viol.append((r['unit'], spath))
+                    continue
             undec.append('%s: %s' % (r['unit'], r['reason'][:300]))
             continue
         for o in r['obligations']:
@@ -164,6 +171,9 @@ def main(argv):
         rc = 1
     elif undec or selftest_bad:
         rc = 2
+    for un, spath in struct_viol:
+        out_lines.append('VIOLATION property=%s replay=%s' % (prop, spath))
+        rc = 1
     if extra_viol:
         rc = 1
     # extra (non-CBMC) supporting checks registered for the property
@@ -190,7 +200,7 @@ def main(argv):
         },
         'assumptions': sorted(assumptions),
         'wall_s': round(time.time() - t0, 1),
-        'violations': len(viol) + extra_viol,
+        'violations': len(viol) + extra_viol + len(struct_viol),
     }
     with open(evid_path, 'w') as f:
         json.dump(ev, f, indent=1)
